@@ -212,7 +212,7 @@ func (m *gwModel) describePkt(v ssa.Value, e *explorer, st *pstate, fr *frame) s
 			return []string{typeStr(x.Type())}
 		case *ssa.Parameter:
 			if a, ok := fr.params[x]; ok && a.known {
-				return []string{a.String()}
+				return []string{strings.TrimPrefix(a.String(), "obj:")}
 			}
 			if _, isIface := x.Type().Underlying().(*types.Interface); isIface {
 				return []string{"?" + typeStr(x.Type())}
